@@ -40,6 +40,7 @@ def gen_cases(rng, tier):
         add(x, 'x("lit")')
         add(x, "x(7)")
         for n in names:
+            add(x, 'x("%s")' % n)           # a quoted name inside the list is a literal item, never a selection
             add(x, "x(%s)" % n)
             add(x, "x(%s = 1)" % n)
             add(x, 'x(%s = "s")' % n)
